@@ -7,6 +7,7 @@ import (
 	"verif/internal/driver"
 	"verif/internal/gen"
 	"verif/internal/model"
+	"verif/internal/vfile"
 )
 
 // Mix holds the relative weights of the operation kinds of a history.
@@ -17,6 +18,7 @@ type Mix struct {
 	SetCollNew, SetCollExisting, RemoveColl, GetColl, FlushRevert, CollWrite, Close int
 	CopyTo                                                                          int
 	PinVisit, ResumeVisit                                                           int
+	FaultyMut                                                                       int // a Set/Delete during which one file read fails
 }
 
 // HistCfg describes how a history is generated.
@@ -181,7 +183,7 @@ func (h *Hist) Step() {
 	}
 	w := []int{mx.Set, mx.SetInvalid, mx.Delete, mx.Get, mx.GetItem, mx.Exist, mx.MinMax, mx.Totals, mx.Visit, mx.Iter, mx.Len,
 		mx.Flush, mx.Evict, mx.Reopen, mx.Snapshot, mx.SnapRead, mx.SnapClose, mx.SnapRevert, mx.SnapOfSnap, mx.SnapMutate,
-		mx.SetCollNew, mx.SetCollExisting, mx.RemoveColl, mx.GetColl, mx.FlushRevert, mx.CollWrite, mx.Close, mx.CopyTo, mx.PinVisit, mx.ResumeVisit}
+		mx.SetCollNew, mx.SetCollExisting, mx.RemoveColl, mx.GetColl, mx.FlushRevert, mx.CollWrite, mx.Close, mx.CopyTo, mx.PinVisit, mx.ResumeVisit, mx.FaultyMut}
 	name := h.liveName()
 	op := r.WeightedPick(w)
 	switch op {
@@ -391,6 +393,37 @@ func (h *Hist) Step() {
 				e.PinVisit(name, r.Bool(), r.Bool(), r.Intn(n))
 				h.Feat["pinvisit"] = true
 			}
+		}
+	case 30: // a mutation that fails half way because one file read fails
+		if name == "" || e.F == nil {
+			return
+		}
+		if r.P(60) {
+			// make the tree cold (and deep enough) first, so that the mutation has to read nodes from the file
+			for len(e.M.Live.Colls[name].Items) < 4 && !e.Failed() {
+				e.SetItem(name, []byte(fmt.Sprintf("deep-%d", h.valN)), h.nextVal(), h.Prios.Next(r), false)
+			}
+			e.Flush()
+			e.Reopen(r.Bool())
+			if e.Failed() || e.S == nil {
+				return
+			}
+			e.Stats["failed-mutation-attempts-cold"]++
+		}
+		e.Stats["failed-mutation-attempts"]++
+		ft := &vfile.Fault{Nth: r.Range(1, 12), Partial: -1}
+		e.Fault = ft
+		e.F.Arm(ft)
+		if r.P(35) {
+			e.Delete(name, h.key(name, 90))
+		} else {
+			e.SetItem(name, h.key(name, 50), h.nextVal(), h.Prios.Next(r), false)
+		}
+		e.Stats["failed-mutation-calls-seen"] += int64(e.F.Disarm())
+		e.Fault = nil
+		if ft.Fired {
+			h.Feat["failed-mutation"] = true
+			e.Stats["failed-mutations"]++
 		}
 	case 29:
 		for i, p := range e.Pins {
